@@ -98,6 +98,9 @@ type (
 	route struct {
 		code int
 		path *MuxPath
+		// filters are all IP filters an uncached search consults on the
+		// way to this result, only set for cached routes.
+		filters []*ipfilter.IPFilter
 	}
 )
 
@@ -539,18 +542,20 @@ func (mi *muxInstance) search(req *httpprot.Request) *route {
 	// headers.
 	r := mi.getRouteFromCache(req)
 	if r != nil {
-		if r.code != 0 {
-			return r
+		for _, f := range r.filters {
+			if !f.Allow(ip) {
+				return forbidden
+			}
 		}
-		if r.path.ipFilterChain == nil {
-			return r
-		}
-		if r.path.ipFilterChain.Allow(ip) {
-			return r
-		}
-		return forbidden
+		return r
 	}
 
+	// visited collects the IP filters consulted so far, a cached result
+	// must consult the same filters for later clients.
+	var visited []*ipfilter.IPFilter
+	if mi.ipFilter != nil {
+		visited = append(visited, mi.ipFilter)
+	}
 	if !allowIP(mi.ipFilter, ip) {
 		return forbidden
 	}
@@ -560,6 +565,9 @@ func (mi *muxInstance) search(req *httpprot.Request) *route {
 			continue
 		}
 
+		if host.ipFilter != nil {
+			visited = append(visited, host.ipFilter)
+		}
 		if !allowIP(host.ipFilter, ip) {
 			return forbidden
 		}
@@ -576,8 +584,15 @@ func (mi *muxInstance) search(req *httpprot.Request) *route {
 
 			// The path can be put into the cache if it has no headers.
 			if len(path.headers) == 0 {
-				r = &route{code: 0, path: path}
-				mi.putRouteToCache(req, r)
+				// If a header-conditioned path was skipped on the way, the
+				// result depends on the headers and must not be cached.
+				if !headerMismatch {
+					filters := append([]*ipfilter.IPFilter{}, visited...)
+					if path.ipFilter != nil {
+						filters = append(filters, path.ipFilter)
+					}
+					mi.putRouteToCache(req, &route{code: 0, path: path, filters: filters})
+				}
 			} else if !path.matchHeaders(req) {
 				headerMismatch = true
 				continue
@@ -596,11 +611,11 @@ func (mi *muxInstance) search(req *httpprot.Request) *route {
 	}
 
 	if methodMismatch {
-		mi.putRouteToCache(req, methodNotAllowed)
+		mi.putRouteToCache(req, &route{code: http.StatusMethodNotAllowed, filters: visited})
 		return methodNotAllowed
 	}
 
-	mi.putRouteToCache(req, notFound)
+	mi.putRouteToCache(req, &route{code: http.StatusNotFound, filters: visited})
 	return notFound
 }
 
